@@ -1075,16 +1075,26 @@ def projective_case(draw, decoy=False, methods=("point", "segment", "polygon", "
     Minv = np.linalg.inv(M)
     aff = [[[draw(fl(-5.0, 5.0)), draw(fl(-5.0, 5.0))] for _ in range(n)]
            for _ in range(count)]
-    X = D.chart_lift(np.array(aff, dtype=float).reshape((count, n, 2)), chart)
+    assume_affine = draw(st.booleans())
+    aff = np.array(aff, dtype=float).reshape((count, n, 2))
     scales = np.array([[draw(gen.scalars_pm()) for _ in range(n)] for _ in range(count)],
                       dtype=float).reshape((count, n, 1))
+    if method == "polygon" and not assume_affine:
+        # draw_polygon(assume_affine=False) sends polygons whose FIRST homogeneous coordinate
+        # keeps one sign through the ordinary route: make that hold by construction (first
+        # affine coordinate positive when the chart is not chart 0, one sign of scale per
+        # polygon)
+        if chart != 0:
+            aff[..., 0] = np.abs(aff[..., 0]) + 0.2
+        scales = np.abs(scales) * np.sign(scales[:, :1, :])
+    X = D.chart_lift(aff, chart)
     Pin = (X @ Minv)
     Pin = Pin / np.max(np.abs(Pin), axis=-1, keepdims=True) * scales
     fig = dict(draw(FIG))
     if decoy:
         fig["decoy"] = True
     return dict(chart=chart, method=method, shape=shape, n=n, prog=prog, X=Pin.tolist(),
-                fig=fig, assume_affine=draw(st.booleans()),
+                fig=fig, assume_affine=assume_affine,
                 ctor=draw(st.sampled_from(["array", "points", "pair"])))
 
 
@@ -1123,7 +1133,10 @@ def body_projective(case, ctx):
         else:
             poly = projective.Polygon(X.copy() if case["ctor"] != "points"
                                       else projective.Point(X.copy()))
-            if chart == 0 and not case["assume_affine"] and \
+            # assume_affine=False: polygons whose first homogeneous coordinate keeps one sign
+            # are drawn through the same PolyCollection route, in the DRAWING's chart (any
+            # chart index; the sign test itself always looks at coordinate 0)
+            if not case["assume_affine"] and \
                     np.all(Y[..., 0] * np.sign(Y[..., :1, 0]) > 0):
                 ctx.label("assume_affine=False")
                 d.draw_polygon(poly, assume_affine=False)
